@@ -210,6 +210,32 @@ class C(P):
     al2: Optional[datetime.date] = field(default=None, metadata=field_options(alias='AL2'))
     node: Optional[Node] = None
 {lazy_cfg}
+@dataclass
+class Ev({base}):
+    when: datetime.date = datetime.date(2005, 5, 5)
+{cfg}        discriminator = Discriminator(field='kind', include_subtypes=True)
+@dataclass
+class EvA(Ev):
+    kind: str = 'a'
+    extra: Optional[datetime.date] = None
+    raw: bytes = b'ev'
+@dataclass
+class EvB(EvA):
+    kind: str = 'b'
+@dataclass
+class PlB:
+    pd: datetime.date = datetime.date(1998, 8, 8)
+@dataclass
+class PlB1(PlB):
+    type: str = 'b1'
+    n: int = 0
+@dataclass
+class Hd({base}):
+    e: Ev = field(default_factory=EvA)
+    es: List[Ev] = field(default_factory=list)
+    pl: Annotated[PlB, Discriminator(field='type', include_subtypes=True)] = field(default_factory=PlB1)
+    d: datetime.date = datetime.date(2006, 6, 6)
+{lazy_cfg}
 '''
 
 
@@ -224,6 +250,10 @@ def mkval(mod, cls, r):
         return mod.C(r.randint(0, 5), y=D(2011, 1, 1), al2=r.choice([None, D(2012, 1, 1)]), node=node)
     if cls == "Node":
         return mod.Node(5, r.choice([None, D(2017, 7, 7)]), mod.Node(6, D(2018, 8, 8)), [mod.Node(7, D(2019, 9, 9))])
+    if cls == "Ev":
+        return r.choice([mod.EvA, mod.EvB])(D(2019, 1, r.randint(1, 28)), extra=r.choice([None, D(2019, 2, 2)]))
+    if cls == "Hd":
+        return mod.Hd(mod.EvB(D(2020, 3, 3)), [mod.EvA(D(2020, 4, 4), extra=D(2020, 5, 5))], mod.PlB1(D(2020, 6, 6), n=r.randint(0, 3)), D(2020, 7, 7))
     if cls == "Late":
         return mod.Late(r.randint(0, 5), D(2010, 2, r.randint(1, 28)), extra=D(2014, 1, 1), more=mod.In(D(2015, 1, 1)))
     return mod.In(D(2013, 1, 1), r.choice([None, 1]), 4)
@@ -261,7 +291,7 @@ def part_a(seed, tier, rec, rng):
         late_src = ("@dataclass\nclass Late(P):\n    extra: datetime.date = datetime.date(2003, 4, 5)\n    more: Optional[In] = None\n"
                     "    class Config(BaseConfig):\n        code_generation_options = [ADD_DIALECT_SUPPORT]\n")
         late_at = rng.randint(1, nsteps - 1) if rng.random() < 0.5 else None
-        classes_now = ["P", "C", "In", "Node"]
+        classes_now = ["P", "C", "In", "Node", "Ev", "Hd", "Hd"]
         for step in range(nsteps):
             if step == late_at:
                 fam.exec_src(late_src)
@@ -282,9 +312,23 @@ def part_a(seed, tier, rec, rng):
                 twin_cache[dname] = tw.module
             tmod = twin_cache[dname]
 
+            if cls in ("Ev", "Hd"):
+                # discriminated hierarchies: only the READING direction is compared (how a subclass instance in a
+                # parent-typed position is written differs between code paths whatever the dialect), on a document in the
+                # dialect's wire form assembled from the twin's ROOT objects; the very first use may be this call
+                op = "from_dict" if (cls == "Hd" or not to_m or rng.random() < 0.5) else from_m
+
             def run(m, kwargs):
                 v = mkval(m, cls, random.Random(vseed))
                 K = getattr(m, cls)
+                if cls in ("Ev", "Hd"):
+                    tv = mkval(tmod, cls, random.Random(vseed))
+                    if cls == "Ev":
+                        return K.from_dict(tv.to_dict()) if op == "from_dict" and not kwargs else (
+                            K.from_dict(tv.to_dict(), **kwargs) if op == "from_dict" else getattr(K, from_m)(getattr(tv, to_m)(), **kwargs))
+                    from mashumaro.codecs.basic import BasicEncoder
+                    doc = {"e": tv.e.to_dict(), "es": [x.to_dict() for x in tv.es], "pl": BasicEncoder(type(tv.pl)).encode(tv.pl), "d": tv.to_dict()["d"]}
+                    return K.from_dict(doc, **kwargs)
                 if op == "to_dict":
                     return v.to_dict(**kwargs)
                 if op == "from_dict":
